@@ -569,7 +569,7 @@ def _exempt(ref, sig, det, text, c17_findings):
 # input reduction (only for failures that no recorded finding explains)
 
 
-def reduce_source(src, same, seconds=8.0):
+def reduce_source(src, same, seconds=5.0):
     """Greedy reduction of `src` (whole lines, then tokens) while same(text) holds."""
     import time
 
@@ -631,7 +631,7 @@ def settle(st, res, src, family, reduce=True, ctx="empty"):
     """Move a Result's failures into Stats; reduce the inputs of unattributed ones (the first two of
     every bucket in this worker; the rest is reported unreduced and deduplicated by bucket)."""
     for f in res.failures:
-        if f.finding is None and reduce and f.kind != "crash" and _reduced.get(f.bucket, 0) < 2 and sum(_reduced.values()) < 12:
+        if f.finding is None and reduce and f.kind != "crash" and _reduced.get(f.bucket, 0) < 1 and sum(_reduced.values()) < 4:
             _reduced[f.bucket] = _reduced.get(f.bucket, 0) + 1
             want = f.bucket
 
@@ -1219,16 +1219,16 @@ def main(run):
     files = corpus.all_files()
     rnd = random.Random(run.seed)        # lays out which stdlib files are sampled; not inside a property
     rnd.shuffle(files)
-    files = files[:run.n(60, 900)]
+    files = files[:run.n(45, 900)]
     common.pool_map(run, __name__, "worker_corpus", [(files[i::nw], run.scratch) for i in range(nw) if files[i::nw]])
     lap("stdlib")
     # (a) generated Python
-    npy = run.n(int(os.environ.get("C17_NPY", 260)), 9000)
+    npy = run.n(int(os.environ.get("C17_NPY", 220)), 9000)
     common.pool_map(run, __name__, "worker_py",
                     [(common.worker_seed(run.seed, w), npy, 20 + 8 * (w % 4), run.scratch) for w in range(nw)])
     lap("python-generated")
     # (b), (c) generated xonsh and mixtures
-    nx = run.n(int(os.environ.get("C17_NX", 420)), 14000)
+    nx = run.n(int(os.environ.get("C17_NX", 380)), 8000)
     common.pool_map(run, __name__, "worker_xsh", [(common.worker_seed(run.seed, 100 + w), nx, run.scratch) for w in range(nw)])
     lap("xonsh-generated")
     # (e) untokenisable input and the CLI
